@@ -34,9 +34,25 @@ ASSUME SplitIsOrderedPartition ==
            /\ \A j \in 1..Len(o) : ~IsDistributed(kinds[o[j]])
            /\ \A j \in 1..Len(d) : IsDistributed(kinds[d[j]])
 
-\* every table row is complete and the genesis rule is used by the builder registration only
+\* every table row is complete and the genesis rule is used by the builder registration only; every domain
+\* type named has its bytes, the two renderings of "the domain type of an operation" agree, and no two names
+\* share a value (a wrong type is a DIFFERENT type - in particular 0x00000001 is not 0x01000000)
 ASSUME TableSane ==
-    \A o \in Ops : /\ SigSpec[o].epoch \in {"slot", "given", "genesis"}
-                   /\ (SigSpec[o].epoch = "genesis") = (SigSpec[o].dom = "DOMAIN_APPLICATION_BUILDER")
-                   /\ (SigSpec[o].msg \in PerIndexMsg) => (SigSpec[o].batch \/ o = "attestation")
+    /\ \A o \in Ops : /\ SigSpec[o].epoch \in {"slot", "given", "genesis"}
+                      /\ (SigSpec[o].epoch = "genesis") = (SigSpec[o].dom = "DOMAIN_APPLICATION_BUILDER")
+                      /\ (SigSpec[o].msg \in PerIndexMsg) => (SigSpec[o].batch \/ o = "attestation")
+                      /\ SigSpec[o].dom \in DOMAIN DomainTypeBytes
+                      /\ TypeOf(o) = SpecType(o)
+    /\ \A k1, k2 \in DOMAIN DomainTypeBytes : (k1 # k2) => DomainTypeBytes[k1] # DomainTypeBytes[k2]
+    /\ \A k \in DOMAIN DomainTypeBytes : /\ Len(DomainTypeBytes[k]) = 4
+                                         /\ \A j \in 1..4 : DomainTypeBytes[k][j] \in 0..255
+    /\ LaterKeys \subseteq SpecKeys
+
+\* the start-up inputs of MC_Signer_boot*.cfg (Boots <- ...): every subset of the later keys not listed, every
+\* single key broken in either way (also the phase0 ones and SLOTS_PER_EPOCH), the failed lookup - on a chain
+\* with 32 and on one with 8 slots per epoch
+BootsWide == UNION {BootsOver(LaterKeys, {"ok", "absent"}, n) \cup BootsOneBroken(SpecKeys, n) \cup {SpecErrBoot(n)}
+                      : n \in {8, 32}}
+\* thorough: every assignment of the three modes to the later keys as well
+BootsWider == BootsWide \cup UNION {BootsOver(LaterKeys, KeyModes, n) : n \in {8, 32}}
 =============================================================================
